@@ -411,6 +411,10 @@ def standard_proof_part(rep: Report, prop: str):
         built = False
         p = write_replay(prop, "proof_build_failed", {"kind": "proof-obligation", "what": "coq build failed", "log": str(e)})
         rep.violation(p, False)
+    if built and not (COQ / "Props" / (prop + ".v")).exists():
+        p = write_replay(prop, "no_property_file", {"kind": "proof-obligation", "what": "coq/Props/%s.v does not exist" % prop})
+        rep.violation(p, False)
+        built = False
     po = proof_obligations(prop) if built else None
     ok = built
     if po:
